@@ -416,3 +416,28 @@ SPECS += [
          ret="Unit", consts={"tools.strip_time(self.pull_data(time, self), self._input_info.grid)": ("pulled", "Val")},
          calls={"self._pack": "id"}, drop_calls=["check_time"], props=["C12"]),
 ]
+
+
+# ---- sdk/output.py : Output.get_info — the producer's side of the metadata exchange (C07) --------------------------
+# the output's Info is read as flat fields (grid / time / mask / units / the other meta entries by key id), the request
+# likewise; `Info.accepts` is the translated one
+META = "Dict[Obj,Opt[Obj]]"
+SPECS += [
+    dict(lean="Output_get_info", path="sdk/output.py", qual="Output.get_info", group="Exchange",
+         fields={"has_info": "Bool", "oi_grid": "Opt[Obj]", "oi_time": "Opt[Time]", "oi_mask": MASK, "oi_units": "Opt[Obj]",
+                 "oi_meta": META, "is_static": "Bool", "_out_infos_exchanged": "Int"},
+         params={}, ignore_params=["info"],
+         extra_params={"info_grid": "Opt[Obj]", "info_time": "Opt[Time]", "info_mask": MASK, "info_units": "Opt[Obj]", "info_meta": META,
+                       "gridCompat": "Lean:(Nat → (Option Nat) → Bool)", "unitsCompat": "Lean:(Nat → Nat → Bool)", "masksEqual": MASKEQ},
+         ret="Unit", return_unit=["self._output_info"],
+         alias={"self._output_info.grid": "self.oi_grid", "self._output_info.time": "self.oi_time",
+                "self._output_info.meta": "self.oi_meta", "info.grid": "info_grid", "info.time": "info_time", "info.meta": "info_meta"},
+         conds={"self._output_info is None": "(self_has_info = false)"},
+         calls={"self._output_info.accepts": {"lean": "Info_accepts",
+                                              "args": ["self.oi_grid", "self.oi_mask", "self.oi_units", "True", "info_grid", "info_mask",
+                                                       "info_units", "gridCompat", "unitsCompat", "masksEqual"],
+                                              "argtypes": ["Opt[Obj]", MASK, "Opt[Obj]", "Bool", "Opt[Obj]", MASK, "Opt[Obj]",
+                                                           "Lean:(Nat → (Option Nat) → Bool)", "Lean:(Nat → Nat → Bool)", MASKEQ],
+                                              "ret": "Bool"}},
+         drop_assign=["fail_info"], props=["C07"]),
+]
